@@ -125,9 +125,9 @@ pub fn case<T>(policy: Policy, keep_trace: bool, body: impl FnOnce(&World<'_>, &
 	let ctl = SeqCtl { exec: exec.clone() };
 	rt::set_ctx(exec.clone(), 0);
 	let r = catch_unwind(AssertUnwindSafe(|| {
-		let arena = Arena::new();
 		let store = Store::new();
-		let world = World::new(&arena, &store);
+		let arena = Arena::new_in(&store);
+		let world = World::new(arena, &store);
 		ctl.init(&world);
 		let v = body(&world, &ctl);
 		// teardown of the world happens with the context still set but nothing should lock
